@@ -80,6 +80,11 @@ CLAIMED = {
              'rng(seed) from a havocked mt19937: every state word afterwards is a term over the symbolic 32-bit seed alone (all generators replay); replay of the 7 generator forms after interleaved draws for concrete seeds; randi with the raw 32-bit '
              'engine outputs symbolic stays inside its inclusive bounds on every path of the real uniform_int_distribution (3 draws; single-value and negative ranges); snr / sinad / thd of c*x for symbolic c in (1e-3, 1e3): one feasible analysis path and a power ratio independent of c.',
              note='NOT decided: the statistical calibration (distribution shape, 6-sigma tolerance) and the 0.1 dB / 1.5 dB accuracies of thd / sinad on specified tones (numeric accuracy of a concrete analysis).'),
+ 'C11': dict(design='4/C11', text='PARTIAL. fir1 low / high / band-pass / band-stop, orders 2..40 (quick: 9 orders; thorough: 2..40, 64, 101, 128), cut-off(s) symbolic and, up to order 9 (24), a fully symbolic custom window: tap count n+1 / n+2; '
+             'h[i] and h[N-i] are the same term (low / high) or equal over the reals given cos even (band-pass / band-stop) for every cut-off and window; sum h == 1 (low) and |sum (-1)^i h_i| == 1 (high) as linear identities over abstracted prototype taps given a '
+             'non-zero prototype sum; custom windows of every wrong length in L-2..L+3 end in a throw. Windows (all eight): per length / variant / parameter the values computed by the real code equal the 40-digit closed form within 1e-12, lie in [0,1], are mirror-exact, '
+             'and periodic(n) is bit-identical to the first n points of symmetric(n+1); gauss for every alpha: mirror-exact, exp of a non-positive argument. Hamming masks: ground instances on a cut-off grid (n in 47, 64; thorough 40..127).',
+             note='PARTIAL: window values and the Hamming-design masks have no quantified input except the (transcendental) cut-off / parameter, so they are ground obligations on a stated grid, not solver-quantified; lengths above 512 and kaiser beta > 40 outside.'),
  'C12': dict(design='4/C12', text='LMS / NLMS / RLS, real and complex, length 2 (3 thorough), fed one sample at a time with x, d, step size, leakage / forgetting factor and diagonal load all symbolic, for 7 (all 2^n thorough) lock schedules: '
              'e[k] is the very term d[k] - y[k]; y[k] == sum_j coeffs()[j]*x[k-j] with the coefficients read before sample k (polynomial identity decided by z3); locked samples leave coeffs() bit-unchanged; unlocked LMS / NLMS samples follow '
              'coeffs*leak + mu*e*x[/(|u|^2+eps)] as a rational identity; real RLS from rest: final coefficients satisfy the exponentially weighted, diagonally regularised normal equations (n = 2); data-dependent paths are enumerated and replayed against an exact rational reference recursion.',
